@@ -108,7 +108,7 @@ def make_rule(name: str):
         return P.RewriteRule(lambda op, x: op.Add(op.Add(x, 1.0), 2.0), rep, name=name)
     if name == "neg_neg_as_function":
         return P.RewriteRule(lambda op, x: op.Neg(op.Neg(x)), lambda op, x: op.NegNeg(x, _domain="vp.custom"), name=name, as_function=True)
-    if name == "mul_add_as_function":
+    if name in ("mul_add_as_function", "mul_add_as_function_commuted"):
         return P.RewriteRule(lambda op, x, y, z: op.Mul(op.Add(x, y), z), lambda op, x, y, z: op.AddMul(x, y, z, _domain="vp.custom"),
                              name=name, as_function=True)
     if name == "relu_neg_keep_nodes":
@@ -401,7 +401,8 @@ def _worker(payload):
 
     def tf(m_):
         m = ir.from_proto(m_)
-        counter[0] = RR.RewriteRuleSet([make_rule(rule_name)]).apply_to_model(m)
+        # "<rule>_commuted": the same rule applied through a rule set built with commute=True (options must survive the commutation)
+        counter[0] = RR.RewriteRuleSet([make_rule(rule_name)], commute=rule_name.endswith("_commuted")).apply_to_model(m)
         return ir.to_proto(m)
     try:
         rec = OC.check_model_pair(mp, spec, rule_name, tf, stats, want_sides=True)
@@ -443,6 +444,27 @@ def _worker(payload):
     return out
 
 
+def _commuted_payloads():
+    """hosts for an as_function rule applied with commute=True: Mul(Add(x, y), z) instances in the written and in the swapped operand
+    orders (main graph, and inside an If branch)"""
+    F_ = onnx.TensorProto.FLOAT
+    out = []
+    vi = lambda n: oh.make_tensor_value_info(n, F_, [2])  # noqa: E731
+    for tag, orders in (("written order", [(False, False)]), ("Add swapped", [(True, False)]), ("Mul swapped", [(False, True)]),
+                        ("two instances, one swapped", [(False, False), (True, True)])):
+        nodes, prev = [], "x"
+        for i, (sa, sm) in enumerate(orders):
+            nodes.append(oh.make_node("Add", ["y", prev] if sa else [prev, "y"], [f"a{i}"]))
+            nodes.append(oh.make_node("Mul", ["z", f"a{i}"] if sm else [f"a{i}", "z"], [f"m{i}"]))
+            prev = f"m{i}"
+        nodes.append(oh.make_node("Neg", [prev], ["o"]))
+        g_ = oh.make_graph(nodes, "g", [vi("x"), vi("y"), vi("z")], [vi("o")])
+        m_ = oh.make_model(g_, opset_imports=[oh.make_opsetid("", 18)], ir_version=9)
+        out.append(("mul_add_as_function_commuted", f"mul_add_as_function_commuted: {tag}", m_.SerializeToString(),
+                    [("x", int(F_), (2,)), ("y", int(F_), (2,)), ("z", int(F_), (2,))], len(orders)))
+    return out
+
+
 def main(tier: str, only=None) -> int:
     run = common.Run("C07", tier, "translation_validation")
     payloads = []
@@ -451,6 +473,8 @@ def main(tier: str, only=None) -> int:
             continue
         for tag, m, spec, expect in hosts(rn, tier):
             payloads.append((rn, tag, m.SerializeToString(), spec, expect))
+    if not only or only in "mul_add_as_function_commuted":
+        payloads += _commuted_payloads()
     with cf.ProcessPoolExecutor(max_workers=common.jobs()) as ex:
         results = list(ex.map(_worker, payloads, chunksize=4))
     # extra side verdicts -> problems understood by aggregate()
